@@ -13,19 +13,24 @@ type zzBatch struct {
 type zzRec struct {
 	completed [][]int
 	failed    [][]int
+	sig       chan int
 }
 
 func (b *zzBatch) CanAdd(any) bool { return len(b.calls) < b.max }
 func (b *zzBatch) Add(c any)       { b.calls = append(b.calls, c.(int)) }
 func (b *zzBatch) Size() int       { return len(b.calls) }
-func (b *zzBatch) Complete()       { b.rec.completed = append(b.rec.completed, b.calls) }
+func (b *zzBatch) Complete() {
+	b.rec.completed = append(b.rec.completed, b.calls)
+	b.rec.sig <- len(b.calls)
+}
 func (b *zzBatch) Fail(error)      { b.rec.failed = append(b.rec.failed, b.calls) }
 
 // ZZBatcher (C20): the real batcherImpl.Run / Add / Close as goroutines with a recording batch factory:
 // every submitted call lands in exactly one batch that is completed or failed exactly once, batches
-// respect the size limit and submission order, nothing is lost when Close races with the producer.
+// respect the size limit and submission order, nothing is lost when Close races with the producer, and
+// a producer that waits (linger > 0) sees every call flushed — no batch is left without a timer.
 func ZZBatcher(n, maxPer, linger, closeAfter int) {
-	rec := &zzRec{}
+	rec := &zzRec{sig: make(chan int, 16)}
 	b := &batcherImpl{
 		batchFactory:        func() Batch { return &zzBatch{rec: rec, max: 2} },
 		callC:               make(chan any, 2),
@@ -42,6 +47,14 @@ func ZZBatcher(n, maxPer, linger, closeAfter int) {
 		b.Add(i)
 	}
 	if closeAfter >= n {
+		if linger > 0 {
+			// a patient producer: with a linger timer every submitted call is flushed without further traffic —
+			// by the size limit, by a split, or by the timer of the batch it sits in
+			for flushed := 0; flushed < n; {
+				flushed += <-rec.sig
+			}
+			vAssert("nothing-failed-for-a-patient-producer", len(rec.failed) == 0)
+		}
 		_ = b.Close()
 	}
 	<-done
